@@ -503,6 +503,14 @@ def generate(rng, tier):
     many = [OSERR] * 1500
     yield ("parse", True, S("ab"), [ESC, LB], [50], [51], many + S("ab") + [ESC, LB, 50] + [OSERR] * 40 + [SEMI, 51, RR], S("z"))
     yield ("hist", [["set", 0, None]] + [["pos", True, [OSERR] * 9 + [ESC, LB, 49 + (i % 5), SEMI, 50, RR]] for i in range(130)])
+    # a long paste typed ahead of the report (hundreds of characters, lengths around 256 and 512), either CSI form
+    for ln in ([255, 256, 257, 300] if tier != "thorough" else list(range(248, 262)) + list(range(506, 520))):
+        for csi in ([ESC, LB], [CSI8]):
+            for filler in ((S("a"), S("\x1b[A") + S("b")) if tier == "thorough" or csi == [CSI8] else (S("a7"),)):
+                extra = (filler * ln)[:ln]
+                if extra and extra[-1] in (ESC, LB):
+                    extra[-1] = ord("z")
+                yield ("parse", True, extra, csi, [50], [51], extra + csi + [50, SEMI, 51, RR], S("xR"))
     n = 8000 if tier == "thorough" else 700
     for _ in range(n):
         yield gen_parse(rng)
